@@ -420,6 +420,11 @@ def check(ctx: Ctx):
         r06_5_all_items(ctx)
     if C.want(ctx, 'R06.6'):
         r06_6(ctx)
+        ctx.rule('R06.10', 'the seeding routine runs once per solver: first-iteration typestate (= R11.4) and the '
+                           'state-restoring entry points leave it cleared, re-run here')
+        from . import c11
+        c11.r11_4(ctx)
+        c11.r11_4_restore(ctx)
     if C.want(ctx, 'R06.7'):
         ctx.rule('R06.7', 'order: the new coordinate is strictly inside the interval whose right end is the hint '
                           '(R02.4 interior guard + R02.8 hint identity), re-run here')
